@@ -15,6 +15,13 @@
 //                          sweep starts on a handle last used by another coder)   FW (whole-buffer run on a brand-new stream,
 //                          compared with the reference)   K:<p>:<calls> (run S:<p> for <calls> calls and abandon it mid-stream;
 //                          not compared; the next run re-initialises the abandoned handle)
+//   flush <coder> <hex> <points> <outcap> <variant>...
+//           encoder with flush actions in the middle: <points> = e.g. "S1234,F5000" (S LZMA_SYNC_FLUSH, F LZMA_FULL_FLUSH,
+//           B LZMA_FULL_BARRIER at these input offsets; LZMA_FINISH at the end). The bytes of a segment are offered in pieces
+//           (LZMA_RUN) and the last piece with the segment's action, repeated until LZMA_STREAM_END. A <variant> "<first>/<then>"
+//           gives the piece sizes used inside every segment AFTER the first flush (prefix 'a': inside the first segment too);
+//           the reference offers every segment in one piece. <outcap> = output window per call (0 = 1 MiB).
+//           -> "ref=[result] dec=<1 ok|0 wrong|- not checked> runs=<n> diffs=<k> {diff=<variant> [result]}"
 //   strrt <struct-chain>
 //           -> "ok <string>" if lzma_str_to_filters(lzma_str_from_filters(f)) = f field by field for the flag sets ENCODER,
 //              ENCODER|GETOPT_LONG, ENCODER|NO_SPACES|GETOPT_LONG (all options) and DECODER (decoder-relevant options);
@@ -490,6 +497,61 @@ static void sweep_one(sweep *s, const char *spec)
 	c06_slicing_free(&sl);
 }
 
+// One encoder run with flush points (see the `flush` op). first == 0 means: every segment in one piece.
+static void flush_run(coder *c, lzma_stream *strm, const uint8_t *in, size_t n, const size_t *pt, const lzma_action *pa, int np,
+		size_t first, size_t then, bool all_segments, size_t outcap, c06_result *r)
+{
+	c06_result_reset(r);
+	g_bcj_used = false;
+	alarm(g_run_timeout);
+	lzma_ret ir = coder_init(c, strm, &in, &n, r);
+	if (ir != LZMA_OK) { alarm(0); r->ret = 100 + (int)ir; r->out_len = 0; return; }
+	if (outcap == 0) outcap = C06_OUTBIG;
+	size_t pos = 0;
+	lzma_ret ret = LZMA_OK;
+	for (int seg = 0; seg <= np && r->ret == -1; ++seg) {
+		const size_t end = seg < np ? pt[seg] : n;
+		const lzma_action act_end = seg < np ? pa[seg] : LZMA_FINISH;
+		const bool sliced = first != 0 && (seg > 0 || all_segments);
+		bool firstpiece = true;
+		for (;;) {
+			const size_t left = end - pos;
+			size_t want = !sliced ? left : (firstpiece ? first : then);
+			if (want == 0) want = 1;
+			const size_t ain = want > left ? left : want;
+			const lzma_action act = ain == left ? act_end : LZMA_RUN;
+			strm->next_in = in + pos;
+			strm->avail_in = ain;
+			unsigned idle = 0;
+			for (;;) {
+				c06_out_reserve(r, outcap);
+				strm->next_out = r->out + r->out_len;
+				strm->avail_out = outcap;
+				const size_t before_in = strm->avail_in;
+				ret = lzma_code(strm, act);
+				++r->ncalls;
+				r->out_len += outcap - strm->avail_out;
+				idle = (before_in == strm->avail_in && strm->avail_out == outcap) ? idle + 1 : 0;
+				if (ret != LZMA_OK && ret != LZMA_STREAM_END) { r->ret = (int)ret; break; }
+				if (idle > 200 && !c->timed) { r->ret = C06_HANG; break; }
+				if (r->out_len > c06_out_limit) { r->ret = C06_RUNAWAY; break; }
+				if (act == LZMA_RUN ? strm->avail_in == 0 : ret == LZMA_STREAM_END) break;
+				if (act == LZMA_RUN && ret == LZMA_STREAM_END) { r->ret = C06_SPURIOUS_BUF_ERROR + 100; break; }
+			}
+			if (r->ret != -1) break;
+			pos += ain;
+			firstpiece = false;
+			if (act != LZMA_RUN) break;
+		}
+	}
+	if (r->ret == -1) r->ret = (int)ret;
+	alarm(0);
+	r->total_in = strm->total_in;
+	r->total_out = strm->total_out;
+	r->bcj = g_bcj_used;
+	coder_post(c, r);
+}
+
 static uint32_t bcj_start(const lzma_filter *f) { return f->options ? ((const lzma_options_bcj *)f->options)->start_offset : 0; }
 
 // Field-by-field comparison of two chains; `enc` = all encoder options, else only what a decoder needs.
@@ -672,6 +734,61 @@ int main(void)
 			c06_result_free(&s.ref);
 			c06_result_free(&s.cur);
 			if (c.block_filters_live) lzma_filters_free(c.block_filters, NULL);
+			coder_free(&c);
+			free(in);
+		} else if (!strcmp(op, "flush") && l.ntok >= 6) {
+			coder c;
+			if (!coder_parse(l.tok[1], &c) || !c.is_encoder) { printf("bad-coder\n"); continue; }
+			size_t n; uint8_t *in = hp_hex(l.tok[2], &n);
+			size_t pt[32]; lzma_action pa[32]; int np = 0;
+			bool okp = true;
+			for (const char *q = l.tok[3]; *q && *q != '-' && np < 32; ) {
+				lzma_action a = *q == 'S' ? LZMA_SYNC_FLUSH : *q == 'F' ? LZMA_FULL_FLUSH : *q == 'B' ? LZMA_FULL_BARRIER : LZMA_RUN;
+				if (a == LZMA_RUN) { okp = false; break; }
+				char *e;
+				pt[np] = (size_t)strtoull(q + 1, &e, 10);
+				if (pt[np] > n || (np > 0 && pt[np] < pt[np - 1])) { okp = false; break; }
+				pa[np++] = a;
+				q = *e == ',' ? e + 1 : e;
+			}
+			if (!okp) { printf("bad-points\n"); free(in); coder_free(&c); continue; }
+			size_t outcap = (size_t)hp_u64(l.tok[4]);
+			lzma_stream strm = LZMA_STREAM_INIT;
+			c06_result ref = {0}, cur = {0};
+			flush_run(&c, &strm, in, n, pt, pa, np, 0, 0, false, outcap, &ref);
+			c06_out_limit = 2 * ref.out_len + 65536;
+			// the reference must decode to the input
+			char dec = '-';
+			if (ref.ret == LZMA_STREAM_END && (!strcmp(c.kind, "easy") || !strcmp(c.kind, "se") || !strcmp(c.kind, "semt") || !strcmp(c.kind, "rawe"))) {
+				uint8_t *back = malloc(n + 1);
+				size_t ip = 0, op2 = 0;
+				uint64_t ml = UINT64_MAX;
+				lzma_ret dr = !strcmp(c.kind, "rawe")
+					? lzma_raw_buffer_decode(c.ch.f, NULL, ref.out, &ip, ref.out_len, back, &op2, n + 1)
+					: lzma_stream_buffer_decode(&ml, 0, NULL, ref.out, &ip, ref.out_len, back, &op2, n + 1);
+				dec = (dr == LZMA_OK && op2 == n && ip == ref.out_len && (n == 0 || memcmp(back, in, n) == 0)) ? '1' : '0';
+				free(back);
+			}
+			printf("ref=");
+			print_result(&ref, false);
+			unsigned long runs = 0, diffs = 0;
+			for (int i = 5; i < l.ntok; ++i) {
+				const char *v = l.tok[i];
+				bool all = v[0] == 'a';
+				if (all) ++v;
+				unsigned long long f1, f2;
+				if (sscanf(v, "%llu/%llu", &f1, &f2) != 2 || f1 == 0) { printf(" bad-variant=%s", l.tok[i]); continue; }
+				flush_run(&c, &strm, in, n, pt, pa, np, (size_t)f1, (size_t)f2, all, outcap, &cur);
+				++runs;
+				if (!c06_result_same(&ref, &cur, 'f')) {
+					if (diffs++ < 3) { printf(" diff=%s ", l.tok[i]); print_result(&cur, false); }
+				}
+			}
+			printf(" dec=%c runs=%lu diffs=%lu\n", dec, runs, diffs);
+			c06_out_limit = (size_t)256 << 20;
+			lzma_end(&strm);
+			c06_result_free(&ref);
+			c06_result_free(&cur);
 			coder_free(&c);
 			free(in);
 		} else if (!strcmp(op, "strrt") && l.ntok == 2) {
